@@ -56,6 +56,11 @@ type Property struct {
 	// reports whether the run exercised what the property is about, key is the
 	// identity used for the distinct count.
 	Eval func(sc *Scenario, sim *Sim) (viol []Violation, nontrivial bool, key string)
+	// Cells, when set, makes the check an enumeration: every cell is handed to
+	// exactly one worker, which runs ChecksPerCell seeded scenarios for it (Gen
+	// reads the cell from currentCell).
+	Cells         func(tier string) []string
+	ChecksPerCell func(tier string) int
 	// Budget: number of rapid batches per worker and checks per batch.
 	QuickChecks    int
 	ThoroughChecks int
@@ -65,6 +70,9 @@ type Property struct {
 }
 
 var registry = map[string]*Property{}
+
+// currentCell is the enumeration cell of the batch being run (see Property.Cells).
+var currentCell string
 
 func register(p *Property) { registry[p.ID] = p }
 
@@ -360,21 +368,47 @@ func workerMain(prop *Property, build, verif, tier string, seed int64, worker, w
 		}
 	}
 	// one rapid.Check per batch; the batch seed is derived from VERIF_SEED and the worker index
-	batch := 0
-	remaining := checks
-	for remaining > 0 && time.Since(start) < capWall {
-		n := remaining
-		if n > 25 {
-			n = 25
+	type batchT struct {
+		cell string
+		n    int
+		seed uint64
+	}
+	var batches []batchT
+	if prop.Cells != nil {
+		cells := prop.Cells(tier)
+		per := prop.ChecksPerCell(tier)
+		for i, c := range cells {
+			if i%workers == worker {
+				batches = append(batches, batchT{c, per, uint64(seed)*1000003 + uint64(i)*104729 + 1})
+			}
 		}
-		remaining -= n
-		bseed := uint64(seed)*1000003 + uint64(worker)*7919 + uint64(batch)*104729 + 1
-		batch++
+		if worker == 0 {
+			stats.Probes["cells_total"] = len(cells)
+		}
+	} else {
+		remaining := checks
+		for b := 0; remaining > 0; b++ {
+			n := remaining
+			if n > 25 {
+				n = 25
+			}
+			remaining -= n
+			batches = append(batches, batchT{"", n, uint64(seed)*1000003 + uint64(worker)*7919 + uint64(b)*104729 + 1})
+		}
+	}
+	for _, b := range batches {
+		if time.Since(start) >= capWall {
+			break
+		}
+		currentCell = b.cell
 		lastFail = nil
 		targetClass = ""
-		failed, logs := runBatch(bseed, n, body, stats)
+		failed, logs := runBatch(b.seed, b.n, body, stats)
 		if stats.Machinery != "" {
 			break
+		}
+		if b.cell != "" {
+			stats.Probes["cells_run"]++
 		}
 		if failed {
 			if lastFail == nil {
@@ -382,7 +416,10 @@ func workerMain(prop *Property, build, verif, tier string, seed int64, worker, w
 				break
 			}
 			stats.Violations = append(stats.Violations, lastFail)
-			break
+			if prop.Cells == nil {
+				break
+			}
+			// an enumeration goes on with the next cell: every cell is reported
 		}
 	}
 	if time.Since(start) >= capWall {
